@@ -97,6 +97,9 @@ type End struct {
 	Steps    int
 	Trace    []Ev
 	TimedOut bool // step limit hit
+	// ArmedBeyondHorizon counts timers still armed whose deadline lies past the
+	// horizon: whoever waits for them is cut off by the harness, not deadlocked.
+	ArmedBeyondHorizon int
 }
 
 type ThreadEnd struct {
@@ -554,6 +557,11 @@ func runOnce(opts *Options, prefix []int, mk func() *Exec) *RunResult {
 	<-r.ctl
 	r.cur = nil
 	end := &End{Now: time.Duration(r.now), Steps: r.steps, Trace: r.trace, TimedOut: r.timedOut}
+	for _, tm := range r.timers {
+		if tm.armed && tm.when > int64(opts.Horizon) {
+			end.ArmedBeyondHorizon++
+		}
+	}
 	for _, t := range r.threads {
 		end.Threads = append(end.Threads, ThreadEnd{ID: t.id, Name: t.name, Finished: t.finished, WaitOn: t.waitOn})
 	}
